@@ -1,7 +1,7 @@
 """C15 All entry points agree: CLI, file API and text API give the same bytes (clauses)."""
 
 from ..report import Ctx
-from ..rules import optflow, write
+from ..rules import optflow, pure, write
 
 EXPLANATION = (
     "Static decision of the structural clauses of C15: (R-OPTFLOW) on every call edge of the option chain "
@@ -24,6 +24,10 @@ def run(ctx: Ctx) -> None:
     ctx.rule("R-SINK", "written value == value returned by reformat_text; formatter input == value read")
     ctx.rule("R-USAGE", "usage errors precede every write-capable call on all paths; main maps them to non-zero exits")
     ctx.rule("R-LOOPSTATE", "no variable is live across iterations of the per-file loop")
+    for _r, _t in (("R-PURE-S1", "no global / escaping-closure state"), ("R-PURE-S2", "no mutation of module-level objects"), ("R-PURE-S3", "no class-attribute state"),
+                   ("R-PURE-S4", "cached functions return stateless objects"), ("R-PURE-S5", "stateful objects are allocated per call"),
+                   ("R-PURE-S6", "no mutable defaults"), ("R-PURE-S7", "renderer fields initialised per instance")):
+        ctx.rule(_r, _t + " (so the result for one file cannot depend on the files formatted before it)")
     ctx.run(optflow.check_parse_args)
     ctx.run(optflow.check_main_call)
     ctx.run(optflow.check_call_edges)
@@ -32,5 +36,7 @@ def run(ctx: Ctx) -> None:
     ctx.run(optflow.check_sinks)
     ctx.run(optflow.check_loop_state)
     ctx.run(write.check_usage_errors)
+    # 'each file gets exactly the result it would get alone' also needs that no state survives a formatting call (C13's argument)
+    ctx.run(pure.check_pure)
     ctx.assume("CPython argparse semantics for store_true / type=int / choices; dataclass __init__ binds keywords to fields by name")
     ctx.assume("C13 (call isolation) for 'each file gets the result it would get alone'")
